@@ -233,7 +233,9 @@ func (p *pool) run() error {
 			noticed := w.noticed
 			w.mu.Unlock()
 			if exited {
-				if sawDone && w.exitErr == nil {
+				if sawDone {
+					// (the race-detector build exits with status 66 when it reported races;
+					// the reports themselves are read from the log files)
 					w.finished = true
 					continue
 				}
@@ -436,6 +438,28 @@ func innermostUser(stack []string) string {
 var genericRe = regexp.MustCompile(`\[[^\]]*\]`)
 
 func stripGeneric(fn string) string {
+	// remove balanced [...] type argument lists, also nested ones
+	for {
+		i := strings.Index(fn, "[")
+		if i < 0 {
+			break
+		}
+		depth, j := 0, i
+		for ; j < len(fn); j++ {
+			if fn[j] == '[' {
+				depth++
+			} else if fn[j] == ']' {
+				depth--
+				if depth == 0 {
+					break
+				}
+			}
+		}
+		if j >= len(fn) {
+			break
+		}
+		fn = fn[:i] + fn[j+1:]
+	}
 	fn = genericRe.ReplaceAllString(fn, "")
 	fn = strings.ReplaceAll(fn, "(*", "")
 	fn = strings.ReplaceAll(fn, ")", "")
@@ -829,6 +853,9 @@ func runRepro(exe, raceExe string, prop *Property, name string) (bool, string) {
 	select {
 	case err := <-done:
 		s := out.String()
+		if strings.Contains(s, "WARNING: DATA RACE") {
+			return true, "the race detector reported a data race:\n" + firstLines(s[strings.Index(s, "WARNING: DATA RACE"):], 25)
+		}
 		if strings.Contains(s, "REPRO-FAILS") {
 			return true, firstLines(s, 30)
 		}
